@@ -325,16 +325,19 @@ DenseSymmetricMatrixPair construct_lltsa_eigenproblem(SparseWeightMatrix W, Rand
     }
     rhs.selfadjointView<Eigen::Upper>().rankUpdate(sum, -1. / (end - begin));
 
+    // the left-hand side is built of the centered features like the right-hand one
+    const DenseVector mean = sum / (end - begin);
     for (int i = 0; i < W.outerSize(); ++i)
     {
         for (SparseWeightMatrix::InnerIterator it(W, i); it; ++it)
         {
             feature_vector_callback.vector(begin[it.row()], rank_update_vector_i);
             feature_vector_callback.vector(begin[it.col()], rank_update_vector_j);
+            rank_update_vector_i -= mean;
+            rank_update_vector_j -= mean;
             lhs.selfadjointView<Eigen::Upper>().rankUpdate(rank_update_vector_i, rank_update_vector_j, it.value());
         }
     }
-    lhs.selfadjointView<Eigen::Upper>().rankUpdate(sum, -1. / (end - begin));
 
     // UNRESTRICT_ALLOC;
 
